@@ -204,6 +204,7 @@ func run() int {
 	infra := []string{}
 	var violFiles []string
 	incomplete := 0
+	kindCount := map[string]int{}
 	for i, r := range res {
 		var s ev.Shard
 		b, err := os.ReadFile(filepath.Join(r.dir, "shard.json"))
@@ -241,11 +242,14 @@ func run() int {
 				merged.Notes = append(merged.Notes, n)
 			}
 		}
-		if len(merged.Samples) < 12 {
-			for _, sm := range s.Samples {
-				if len(merged.Samples) < 12 {
-					merged.Samples = append(merged.Samples, sm)
-				}
+		for _, sm := range s.Samples {
+			kind := ""
+			if m, ok := sm.(map[string]any); ok {
+				kind, _ = m["kind"].(string)
+			}
+			if kindCount[kind] < 3 && len(merged.Samples) < 24 {
+				kindCount[kind]++
+				merged.Samples = append(merged.Samples, sm)
 			}
 		}
 		vf := filepath.Join(r.dir, "violation.json")
@@ -260,6 +264,20 @@ func run() int {
 		}
 	}
 
+	if os.Getenv("VERIF_KEEPGOING") != "" {
+		seen := map[string]bool{}
+		for _, r := range res {
+			for _, ln := range strings.Split(r.log, "\n") {
+				if i := strings.Index(ln, "KEEPGOING "); i >= 0 {
+					k := strings.SplitN(ln[i:], " :: ", 2)[0]
+					if !seen[k] {
+						seen[k] = true
+						fmt.Println(ln[i:])
+					}
+				}
+			}
+		}
+	}
 	wall := time.Since(t0).Seconds()
 	exh := len(exhParts) > 0
 	for _, n := range exhParts {
